@@ -812,14 +812,14 @@ func (e *env) torn(dir string, disk []*written, r *gen.Rand, seed uint64, index 
 			}
 		}
 		// keep the quick tier small
-		if len(ks) > 28 {
+		if len(ks) > 20 {
 			var l []int
 			for k := range ks {
 				l = append(l, k)
 			}
 			sort.Ints(l)
 			ks = map[int]bool{}
-			for len(ks) < 28 {
+			for len(ks) < 20 {
 				ks[l[r.Intn(len(l))]] = true
 			}
 		}
@@ -1041,7 +1041,7 @@ func main() {
 		preamble: "From Coq Require Import List NArith ZArith Uint63.\nFrom Verif Require Import lib.Int64 lib.Bytes model.HeadChunks corr.CorrC25.\nImport ListNotations.\nOpen Scope N_scope.\n"}
 	e := &env{f: f, meta: meta, cf: cf, seen: map[string]bool{}, every: f.Tier == "thorough"}
 	e.corpus()
-	n := f.Count(36, 220)
+	n := f.Count(30, 200)
 	for i := 0; i < n; i++ {
 		e.randomScenario(f.Seed, i, 0)
 	}
